@@ -115,7 +115,15 @@ func Read(fd *os.File, p []byte) (int, error) {
 		if stdinOff >= len(Stdin) {
 			return 0, io.EOF
 		}
-		n := copy(p, Stdin[stdinOff:])
+		// a terminal in canonical mode hands over one line per read
+		rest := Stdin[stdinOff:]
+		for i, b := range rest {
+			if b == '\n' {
+				rest = rest[:i+1]
+				break
+			}
+		}
+		n := copy(p, rest)
 		stdinOff += n
 		return n, nil
 	}
